@@ -32,6 +32,20 @@ MISSED_FIRST.update({
     "C14-c": "end-tag name compared over name.size() bytes only — first caught only as a shape mismatch ('comparison with back() not found'); the clause now classifies the comparison (equal / prefix / unknown) and reports the prefix comparison as such",
     "C14-d": "depth limit tested after the self-closing early return — first caught only through the ++/-- shape rule; C14-R3 now requires every start/empty-element token to be behind the maxDepth test and the accounting rule compares net depth change with push/pop",
 })
+MISSED_FIRST.update({
+    "C15-d": "client reuses one Response object across header blocks (interim 1xx headers leak into the final response) — missed; caught after the 'fresh Response per header block' clause was added to C15-R7",
+    "C12-c": "journal reader and writer disagree on one record layout — missed; caught after C12-R7 (writer/reader layout agreement per op code) was added",
+    "C12-d": "expired key erased from the map but not from the expiry index (or vice versa) — missed; caught after C12-R8 (every _kv erase paired with the _expiry erase) was added",
+    "C09-c": "a submit refused for a reason outside the documented set — missed; caught after C09-R9 (closed set of refusal reasons, structural match of the conditions) was added",
+    "C09-d": "spawnWorker path that counts a worker without creating its thread — missed; caught after the spawn clause of C09-R9 was added",
+    "C17-c": "a framing-error handler that rethrows before the catch-all so the connection is not evicted — missed; caught after C17-R5 required every handler of the receive try to evict",
+    "C15-c": "first caught only as a shape mismatch; the rule now classifies the construct and reports the actual violation",
+    "C16-c": "first caught only as a shape mismatch; the rule now classifies the construct and reports the actual violation",
+    "C18-c": "first caught only as a shape mismatch; the rule now classifies the construct and reports the actual violation",
+    "C18-d": "first caught only as a shape mismatch; the rule now classifies the construct and reports the actual violation",
+})
+# caught by the first version, but only because a shape the rule expected was gone — the report did not name the real violation
+IMPRECISE_FIRST = {k: MISSED_FIRST.pop(k) for k in ("C14-c", "C14-d", "C15-c", "C16-c", "C18-c", "C18-d")}
 CROSS = {"C16-b": ["C15"]}
 SUPERSEDED = {
     "C15-b": "the try/catch it narrows was removed by fix 89c0d74 (strict chunk-size parser no longer throws); evaluated on the tree before that fix: caught by C15-R4. The equivalent change on today's tree is mutant mutants/C15/m10-server-catch-narrow.diff.",
@@ -130,7 +144,8 @@ def main():
             "check": {"quick_rc": rc, "rules_fired": rules, "cross_property": CROSS.get(sid)},
             "detected": bool(rules),
             "initially_missed": sid in MISSED_FIRST,
-            "history": MISSED_FIRST.get(sid, "caught by the first version of the check"),
+            "initially_imprecise": sid in IMPRECISE_FIRST,
+            "history": MISSED_FIRST.get(sid) or IMPRECISE_FIRST.get(sid) or "caught by the first version of the check",
         }
         json.dump(meta, open(os.path.join(dst, "meta.json"), "w"), indent=1)
         summary.append((sid, status.split(":")[0], rc, sorted(rules)))
